@@ -58,7 +58,7 @@ func c07ExtremeNumber(c *fw.Ctx) (ev.Event, string) {
 		for exp > 100001 || exp < -100001 {
 			exp /= 10
 		}
-		bf := new(big.Float).SetPrec(uint(24 + r.Intn(200))).SetMantExp(big.NewFloat(1.5), int(exp))
+		bf := new(big.Float).SetPrec(uint(24+r.Intn(200))).SetMantExp(big.NewFloat(1.5), int(exp))
 		if neg {
 			bf.Neg(bf)
 		}
